@@ -38,6 +38,25 @@ def multiset_minus(a, b):
     return res
 
 
+_checks_cache = {}
+
+
+def state_checks(state):
+    """Whether the state passes the full check (remembered per state object)."""
+    k = id(state)
+    if k not in _checks_cache or _checks_cache[k][0] is not state:
+        try:
+            copy.copy(state).check_proof()
+            ok = True
+        except RecursionError:
+            raise
+        except Exception:
+            ok = False
+        _checks_cache.clear()
+        _checks_cache[k] = (state, ok)
+    return _checks_cache[k][1]
+
+
 def try_suggestion(run, state, sug, name, where):
     step = {k: v for k, v in sug.items() if not k.startswith('_') and k != 'display'}
     mname = step['method_name']
@@ -77,7 +96,10 @@ def try_suggestion(run, state, sug, name, where):
     except RecursionError:
         raise
     except Exception as e:
-        if 'Theorem %s not found' % name.split('.', 1)[-1] not in repr(e):
+        if not state_checks(state):
+            # the state the suggestion was made in does not check either (a matter of C13, reported there): no verdict on the step
+            run.stat('outcome:%s:state-before-does-not-check' % mname)
+        elif 'Theorem %s not found' % name.split('.', 1)[-1] not in repr(e):
             run.violation('property', 'suggestion of %s applies, but the resulting state does not check (%s) at %s of %s' % (mname, type(e).__name__, where, name),
                           dict(theorem=name, where=where, suggestion={k: sstr(v) for k, v in sug.items() if k != 'display'}, parameters={k: sstr(v) for k, v in step.items()},
                                error=repr(e)[:300], proof_before=export_lines(state), proof_after=export_lines(cp)),
